@@ -1125,8 +1125,12 @@ pub fn run(case: &str, st: &mut Stats) -> Outcome {
         }
     }
     out.push("#".to_string());
-    if has_cnf && !compress {
-        // clause order after the code's sort is unspecified: only denotations are determined
+    let _ = has_cnf;
+    if !compress {
+        // without compression the shape of a result is not fixed by any property (it depends on the
+        // order in which apply visits elements, the clause order after compile_cnf's sort, ...):
+        // only denotations are compared there; the compressing builder's results are canonical
+        // and are compared node by node
         out.clear();
         for p in pool.iter() {
             out.push(w.tt(*p).hex_lo());
